@@ -1,5 +1,5 @@
 """Checks for C10 / C13: the real listener and the real client over loopback TCP and TLS."""
-import os
+import os, re
 import core
 from core import Rng, log
 from proto import *
@@ -288,6 +288,10 @@ def check_C13(chk, tier, seed):
         if a.startswith("[") and "]" in a:
             want = a[1:a.index("]")]
         elif sep and ":" not in host and "[" not in host and "]" not in host:
+            want = host
+        elif sep and re.fullmatch(r"[0-9]{1,5}", port) and int(port) < 65536 and "[" not in host and "]" not in host:
+            # a host that itself contains colons (unbracketed IPv6 literal): std's `ToSocketAddrs for str`, through which connect() reaches the
+            # peer, splits at the LAST colon, so "the host it was asked to connect to" is the text before it (C13_domain_drops_port)
             want = host
         elif not sep and "[" not in a:
             want = a
